@@ -267,7 +267,8 @@ fn check_level(p: &PMapProof, m: &RefNode, inner: &[Bytes], path: &str, out: &mu
         if idx.map(|i| *pos == leaf_pos(i as u64)).unwrap_or(false) {
             continue;
         }
-        let shadowed = p.master_proof.inner_leaves[..j].iter().any(|(q, _)| q == pos);
+        // a repeated position is a root cause of its own only when the earlier entry states a different leaf
+        let shadowed = p.master_proof.inner_leaves[..j].iter().any(|(q, it)| q == pos && it != item);
         // these are defects of the tree proof underneath (same classifier keys as in part 2)
         let key = if shadowed {
             "C09/mkproof:entry-repeating-a-position-is-not-verified".to_string()
@@ -283,7 +284,7 @@ fn check_level(p: &PMapProof, m: &RefNode, inner: &[Bytes], path: &str, out: &mu
                 "at {path}: item {} is stated at position {pos} of the tree whose leaves are {:?}{}",
                 hex::encode(&item.hash),
                 level.iter().map(hex::encode).collect::<Vec<_>>(),
-                if shadowed { " (the position repeats that of an earlier entry)" } else { "" }
+                if shadowed { " (an earlier entry states a different leaf at this position)" } else { "" }
             ),
         });
     }
